@@ -1416,6 +1416,10 @@ def run_ops(ops, journal, rng=None, nops=0, stats=None, alloc_mode='guard'):
                 if k in w.env and O.bits(w.env[k]['X']) != b:
                     raise Mismatch('operand-modified', '%s modified %s, which is not its target' % (name, k), op=name)
             check_world(w, name, stats)
+            # products of two entries must stay below 2^53 to be exact whatever the order of accumulation:
+            # objects with entries beyond 1e6 leave the world after this last exact check
+            for k_ in [k_ for k_, e_ in w.env.items() if any(abs(v_) > 1e6 for v_ in e_['D'])]:
+                del w.env[k_]
             bad = check_indices()
             if bad:
                 raise Mismatch('operand-modified', '%s: %s' % (name, bad), op=name, operand='index')
